@@ -5,7 +5,7 @@
 patch="$1"; shift
 WT=/tmp/wt/sens_fg
 if [ ! -d "$WT" ]; then git -C /repo worktree add -q --detach "$WT" HEAD || exit 2; fi
-git -C "$WT" checkout -q --detach "$(git -C /repo rev-parse HEAD)" 2>/dev/null
+git -C "$WT" checkout -q --detach "$(git -C /repo rev-parse "${SENS_REV:-HEAD}")" 2>/dev/null
 git -C "$WT" checkout -q -- . ; git -C "$WT" clean -fdq src
 git -C "$WT" apply "$patch" || { echo "patch does not apply"; exit 2; }
 mkdir -p /tmp/sens_out; cp /verif/known-findings.jsonl /tmp/sens_out/
